@@ -156,6 +156,7 @@ Proof. exact rejecting_is_monotone. Qed.
 Theorem mon_rejected_prefix_stays_rejected : forall l1 l2 e s,
   mrun init_mstate l1 0 = (Some e, s) -> mrun init_mstate (l1 ++ l2) 0 = (Some e, s).
 Proof. exact rejected_prefix_stays_rejected. Qed.
+Print Assumptions mon_step_total.
 Print Assumptions mon_rejecting_is_monotone.
 Print Assumptions mon_rejected_prefix_stays_rejected.
 
